@@ -530,6 +530,24 @@ func fromSObs(l []lib.SObs) []sEntry {
 	return out
 }
 
+// probeTimelineBoundaries decides the variant of changeTimelineTimescale from its BEHAVIOUR: four segments
+// of 1601.6 ms (48048/30000 s) from 0. Converting t and d separately gives one S element (d=1602 r=3);
+// converting every boundary gives the starts 0, 1602, 3203, 4805, i.e. durations 1602, 1601, 1602, 1601.
+func probeTimelineBoundaries() (bnd bool) {
+	defer func() {
+		if recover() != nil {
+			bnd = false
+		}
+	}()
+	out := app.VerifChangeTimelineTimescale([]app.VerifS{{HasT: true, T: 0, D: 48048, R: 3}}, 30000, 1000)
+	var e []sEntry
+	for _, s := range out {
+		e = append(e, sEntry{HasT: s.HasT, T: int64(s.T), D: int64(s.D), R: int64(s.R)})
+	}
+	x := expandEntries(e)
+	return len(x) == 4 && x[1][0] == 1602 && x[2][0] == 3203 && x[3][0] == 4805
+}
+
 // timelineBoundaries reads livempd.go of the tree under test: does changeTimelineTimescale convert every
 // segment boundary on its own (a counting loop over the repeats of an S element inside the loop over
 // the S elements), or the first t and every d separately (no inner loop)? The model follows.
@@ -704,11 +722,12 @@ func runC12(c *lib.Ctx) error {
 	if tz := os.Getenv("C12_CHILD_TZ"); tz != "" {
 		return runChildTZ(c, r, rng, tz)
 	}
+	r.bnd = probeTimelineBoundaries()
+	c.Res.Notes = append(c.Res.Notes, fmt.Sprintf("changeTimelineTimescale in the tree under test converts every boundary on its own (probed through the hook): %v", r.bnd))
 	if b, problem := timelineBoundaries(); problem != "" {
-		c.Res.Notes = append(c.Res.Notes, "changeTimelineTimescale variant: "+problem)
-	} else {
-		r.bnd = b
-		c.Res.Notes = append(c.Res.Notes, fmt.Sprintf("changeTimelineTimescale in the tree under test converts every boundary on its own: %v", b))
+		c.Res.Notes = append(c.Res.Notes, "changeTimelineTimescale variant not recognised syntactically ("+problem+"): taken from the probe")
+	} else if b != r.bnd {
+		c.Res.Notes = append(c.Res.Notes, fmt.Sprintf("changeTimelineTimescale: the syntactic reading of livempd.go says boundaries=%v, the behaviour says %v: the model follows the behaviour", b, r.bnd))
 	}
 	scale := 1
 	if c.Thorough() {
@@ -973,9 +992,7 @@ func runChildTZ(c *lib.Ctx, r *runner, rng *rand.Rand, tz string) error {
 	if base, err := strconv.Atoi(os.Getenv("C12_ID_BASE")); err == nil {
 		r.nextID = base
 	}
-	if b, problem := timelineBoundaries(); problem == "" {
-		r.bnd = b
-	}
+	r.bnd = probeTimelineBoundaries()
 	bundled, err := lib.LoadBundledAssets(lib.TestVodRoot)
 	if err != nil {
 		return err
